@@ -1160,7 +1160,7 @@ func (g *Gengine) ExecuteSelectedNSortMConcurrent(nSort, mConcurrent int, rb *bu
 		if rule, ok := rb.Kc.RuleEntities[v]; ok {
 			rules = append(rules, rule)
 		} else {
-			return errors.New(fmt.Sprintf("not exist rule:%s", rule.RuleName))
+			return errors.New(fmt.Sprintf("not exist rule:%s", v))
 		}
 	}
 
@@ -1254,7 +1254,7 @@ func (g *Gengine) ExecuteSelectedNConcurrentMSort(nConcurrent, mSort int, rb *bu
 		if rule, ok := rb.Kc.RuleEntities[v]; ok {
 			rules = append(rules, rule)
 		} else {
-			return errors.New(fmt.Sprintf("not exist rule:%s", rule.RuleName))
+			return errors.New(fmt.Sprintf("not exist rule:%s", v))
 		}
 	}
 
@@ -1354,7 +1354,7 @@ func (g *Gengine) ExecuteSelectedNConcurrentMConcurrent(nConcurrent, mConcurrent
 		if rule, ok := rb.Kc.RuleEntities[v]; ok {
 			rules = append(rules, rule)
 		} else {
-			return errors.New(fmt.Sprintf("not exist rule:%s", rule.RuleName))
+			return errors.New(fmt.Sprintf("not exist rule:%s", v))
 		}
 	}
 
